@@ -228,6 +228,39 @@ void h_roundtrip(void) {
     }
     V_CANARY("round trip completed");
 }
+/* U25.4.done — the flush as a function of the writer state: from ANY state of the pre-carry buffer (up to DONE_N
+ * entries, each a byte plus a pending carry bit, i.e. < 512 — what od_ec_enc_normalize stores, U25.3) and any
+ * low / cnt satisfying the state invariant, svt_od_ec_enc_done returns bytes whose big-endian value equals the
+ * sum of the pre-carry entries (the stored ones and the final ones it appends), each weighted by its byte position,
+ * modulo 256^nbytes: carry propagation loses and invents nothing.  Shifts and adds only (no multiplier). */
+#ifndef DONE_N
+#define DONE_N 3
+#endif
+void h_done(void) {
+    OdEcEnc enc;
+    svt_od_ec_enc_init(&enc, 16);
+    V_ASSERT(enc.error == 0, "writer initialised");
+    V_NONDET(unsigned, n);
+    V_ASSUME(n <= DONE_N);
+    for (unsigned i = 0; i < DONE_N; i++) { V_NONDET(uint16_t, v); V_ASSUME(v < 512); if (i < n) enc.precarry_buf[i] = v; }
+    enc.offs = n;
+    V_NONDET(int16_t, cnt); V_NONDET(uint32_t, low);
+    V_ASSUME(cnt >= -9 && cnt <= -1);
+    V_ASSUME(low < (1u << (cnt + 25)));      /* state invariant of the writer (U25.3.norm): low + rng <= 2^(cnt+25) */
+    enc.cnt = cnt; enc.low = low; enc.rng = 0x8000;
+    uint32_t nb = 0;
+    uint8_t *out = svt_od_ec_enc_done(&enc, &nb);
+    V_ASSERT(out != NULL && enc.error == 0, "flush succeeds");
+    V_ASSERT(nb >= n && nb <= n + 3, "the flush appends at most three final bytes");
+    uint64_t want = 0, got = 0;
+    for (unsigned i = 0; i < DONE_N + 3; i++) if (i < nb) {
+        want += (uint64_t)enc.precarry_buf[i] << (8 * (nb - 1 - i));
+        got |= (uint64_t)out[i] << (8 * (nb - 1 - i));
+    }
+    uint64_t mask = nb >= 8 ? ~(uint64_t)0 : (((uint64_t)1 << (8 * nb)) - 1);
+    V_ASSERT(got == (want & mask), "carry propagation: the output bytes are the pre-carry entries summed with their carries (mod 256^nbytes)");
+    V_CANARY("flush returns");
+}
 /* same, multi-symbol alphabets: RT_K symbols, each with its own arbitrary valid inverse-CDF table of 2..RT_N
  * symbols, mixed with one boolean in between (the two coding paths share the window) */
 #ifndef RT_N
